@@ -127,6 +127,7 @@ theorem inv_step (verifyOk : St → Batch → Bool) (s : St) (g : Ghost) (op : O
           | none => simpa [hm] using (show Inv verifyOk s g from ⟨hp, hv, hl⟩)
           | some db' => exact ⟨rfl, by simp, hl⟩
   | unstage => exact ⟨hp, hv, hl⟩
+  | modAcct k op out => exact ⟨hp, hv, hl⟩
 
 theorem inv_grun (verifyOk : St → Batch → Bool) (s : St) (g : Ghost) (ops : List Op) (h : Inv verifyOk s g) :
     Inv verifyOk (grun verifyOk s g ops).1 (grun verifyOk s g ops).2 := by
